@@ -9,10 +9,13 @@ Model of `/repo/internal/queries/substitution.go` (`ParseTemplate`,
 (`ResolveFilterTemplate`, `resolveFilter`, `resolveValue`, `extractVariable`),
 `variables.go` (`validateValueType`) and `schema.go` (`GetFieldType`).
 
-`ParseTemplate` walks the *bytes* of the string and appends `string(b)` for every
-literal byte `b`; in Go that is the UTF-8 encoding of the code point `b`, so a
-non-ASCII literal is re-encoded byte by byte (`é` = C3 A9 becomes `Ã©`).  The
-model follows the code: a literal byte `b` becomes `Char.ofNat b`.
+`ParseTemplate` walks the *bytes* of the string and copies every literal byte
+verbatim (fix `36e323f`).  `$`, `{`, `}` and identifier bytes are ASCII, so they
+never split a multi-byte sequence: the result is the code-point reading of the
+template (`units := codePoints`).  Before the fix the code appended `string(b)` —
+the UTF-8 encoding of the *code point* `b` — for every literal byte, re-encoding
+non-ASCII literals (`é` = C3 A9 became `Ã©`): `units := utf8Bytes`, kept as
+`resolveTemplatePreFix`.
 -/
 namespace Ledger.Query
 
@@ -91,14 +94,14 @@ def parseTemplateAux : Nat → List Nat → List Char → Except TErr (List Piec
         | .ok ps => .ok (.lit cur.reverse :: .var name :: ps)
     else parseTemplateAux fuel rest (Char.ofNat b :: cur)
 
-/-- The units `ParseTemplate` iterates over: the UTF-8 bytes (what the code does). -/
+/-- Pre-fix reading: each UTF-8 byte becomes the code point of the same number. -/
 def utf8Bytes (s : String) : List Nat := s.toUTF8.toList.map (·.toNat)
 
-/-- The units a reader of the template sees: its code points (the specification
-    reading; coincides with `utf8Bytes` on ASCII strings). -/
+/-- The code (and the specification reading): literals are kept as they are, i.e.
+    the template is a sequence of code points (coincides with `utf8Bytes` on ASCII). -/
 def codePoints (s : String) : List Nat := s.toList.map Char.toNat
 
-/-- `ParseTemplate` over the given units (`utf8Bytes` = the code). -/
+/-- `ParseTemplate` over the given units (`codePoints` = the code). -/
 def parseTemplate (units : String → List Nat) (s : String) : Except TErr (List Piece) :=
   let bs := units s
   parseTemplateAux (bs.length + 1) bs []
@@ -376,8 +379,8 @@ structure Template where
   vars : List (String × VarDecl)
   deriving Repr, Inhabited
 
-/-- `ResolveFilterTemplate(resource, body, varDecls, callVars)`; `units := utf8Bytes`
-    is the code, `units := codePoints` the specification reading. -/
+/-- `ResolveFilterTemplate(resource, body, varDecls, callVars)`; `units := codePoints`
+    is the code, `units := utf8Bytes` the code before fix `36e323f`. -/
 def resolveTemplateWith (units : String → List Nat) (parseDate : String → Option Int)
     (t : Template) (call : Vars) : Except TErr (Option Filter) :=
   match buildVars parseDate t.vars call with
@@ -390,8 +393,13 @@ def resolveTemplateWith (units : String → List Nat) (parseDate : String → Op
       | none => .ok none
       | some f => (resolveTree (resolveLeaf units intLit? schema vars) f).map some
 
-/-- The code: byte-wise `ParseTemplate`. -/
+/-- The code. -/
 def resolveTemplate (parseDate : String → Option Int) (t : Template) (call : Vars) :
+    Except TErr (Option Filter) :=
+  resolveTemplateWith codePoints parseDate t call
+
+/-- The code before fix `36e323f` (byte-wise re-encoding of literals). -/
+def resolveTemplatePreFix (parseDate : String → Option Int) (t : Template) (call : Vars) :
     Except TErr (Option Filter) :=
   resolveTemplateWith utf8Bytes parseDate t call
 
